@@ -34,5 +34,13 @@ CLAIMS = {
         "note": TRUST + "library model; asyncio.gather re-raises the first task exception; interleavings need no exploration once hosts share no state",
         "technique": "path-condition dominance + taint/may-raise effect analysis + who-writes (static analysis)",
     },
+    "C15": {
+        "text": "For every path through the capability record loop at once: the cursor advances by exactly 3+size on each back edge "
+                "(affine forms over value-flow terms), every read stays inside its record, the only loop-carried values are the cursor "
+                "and the write-only result dict, merge is an in-order dict.update and get_capabilities pages/merges/updates in the "
+                "right order. Together: parse(list) = fold of parse(record), independent of the split point.",
+        "note": TRUST + "dict.update semantics",
+        "technique": "cursor-advance / loop-carried-state analysis on value-flow terms (static analysis)",
+    },
 }
 NOT_APPLICABLE = {}
